@@ -6,30 +6,99 @@ import "github.com/mit-pdos/go-nfsd/nfstypes"
 type c16Recorder struct{ last string }
 
 func (r *c16Recorder) NFSPROC3_NULL() { r.last = "NFSPROC3_NULL" }
-func (r *c16Recorder) NFSPROC3_GETATTR(a nfstypes.GETATTR3args) (x nfstypes.GETATTR3res) { r.last = "NFSPROC3_GETATTR"; return }
-func (r *c16Recorder) NFSPROC3_SETATTR(a nfstypes.SETATTR3args) (x nfstypes.SETATTR3res) { r.last = "NFSPROC3_SETATTR"; return }
-func (r *c16Recorder) NFSPROC3_LOOKUP(a nfstypes.LOOKUP3args) (x nfstypes.LOOKUP3res) { r.last = "NFSPROC3_LOOKUP"; return }
-func (r *c16Recorder) NFSPROC3_ACCESS(a nfstypes.ACCESS3args) (x nfstypes.ACCESS3res) { r.last = "NFSPROC3_ACCESS"; return }
-func (r *c16Recorder) NFSPROC3_READLINK(a nfstypes.READLINK3args) (x nfstypes.READLINK3res) { r.last = "NFSPROC3_READLINK"; return }
-func (r *c16Recorder) NFSPROC3_READ(a nfstypes.READ3args) (x nfstypes.READ3res) { r.last = "NFSPROC3_READ"; return }
-func (r *c16Recorder) NFSPROC3_WRITE(a nfstypes.WRITE3args) (x nfstypes.WRITE3res) { r.last = "NFSPROC3_WRITE"; return }
-func (r *c16Recorder) NFSPROC3_CREATE(a nfstypes.CREATE3args) (x nfstypes.CREATE3res) { r.last = "NFSPROC3_CREATE"; return }
-func (r *c16Recorder) NFSPROC3_MKDIR(a nfstypes.MKDIR3args) (x nfstypes.MKDIR3res) { r.last = "NFSPROC3_MKDIR"; return }
-func (r *c16Recorder) NFSPROC3_SYMLINK(a nfstypes.SYMLINK3args) (x nfstypes.SYMLINK3res) { r.last = "NFSPROC3_SYMLINK"; return }
-func (r *c16Recorder) NFSPROC3_MKNOD(a nfstypes.MKNOD3args) (x nfstypes.MKNOD3res) { r.last = "NFSPROC3_MKNOD"; return }
-func (r *c16Recorder) NFSPROC3_REMOVE(a nfstypes.REMOVE3args) (x nfstypes.REMOVE3res) { r.last = "NFSPROC3_REMOVE"; return }
-func (r *c16Recorder) NFSPROC3_RMDIR(a nfstypes.RMDIR3args) (x nfstypes.RMDIR3res) { r.last = "NFSPROC3_RMDIR"; return }
-func (r *c16Recorder) NFSPROC3_RENAME(a nfstypes.RENAME3args) (x nfstypes.RENAME3res) { r.last = "NFSPROC3_RENAME"; return }
-func (r *c16Recorder) NFSPROC3_LINK(a nfstypes.LINK3args) (x nfstypes.LINK3res) { r.last = "NFSPROC3_LINK"; return }
-func (r *c16Recorder) NFSPROC3_READDIR(a nfstypes.READDIR3args) (x nfstypes.READDIR3res) { r.last = "NFSPROC3_READDIR"; return }
-func (r *c16Recorder) NFSPROC3_READDIRPLUS(a nfstypes.READDIRPLUS3args) (x nfstypes.READDIRPLUS3res) { r.last = "NFSPROC3_READDIRPLUS"; return }
-func (r *c16Recorder) NFSPROC3_FSSTAT(a nfstypes.FSSTAT3args) (x nfstypes.FSSTAT3res) { r.last = "NFSPROC3_FSSTAT"; return }
-func (r *c16Recorder) NFSPROC3_FSINFO(a nfstypes.FSINFO3args) (x nfstypes.FSINFO3res) { r.last = "NFSPROC3_FSINFO"; return }
-func (r *c16Recorder) NFSPROC3_PATHCONF(a nfstypes.PATHCONF3args) (x nfstypes.PATHCONF3res) { r.last = "NFSPROC3_PATHCONF"; return }
-func (r *c16Recorder) NFSPROC3_COMMIT(a nfstypes.COMMIT3args) (x nfstypes.COMMIT3res) { r.last = "NFSPROC3_COMMIT"; return }
+func (r *c16Recorder) NFSPROC3_GETATTR(a nfstypes.GETATTR3args) (x nfstypes.GETATTR3res) {
+	r.last = "NFSPROC3_GETATTR"
+	return
+}
+func (r *c16Recorder) NFSPROC3_SETATTR(a nfstypes.SETATTR3args) (x nfstypes.SETATTR3res) {
+	r.last = "NFSPROC3_SETATTR"
+	return
+}
+func (r *c16Recorder) NFSPROC3_LOOKUP(a nfstypes.LOOKUP3args) (x nfstypes.LOOKUP3res) {
+	r.last = "NFSPROC3_LOOKUP"
+	return
+}
+func (r *c16Recorder) NFSPROC3_ACCESS(a nfstypes.ACCESS3args) (x nfstypes.ACCESS3res) {
+	r.last = "NFSPROC3_ACCESS"
+	return
+}
+func (r *c16Recorder) NFSPROC3_READLINK(a nfstypes.READLINK3args) (x nfstypes.READLINK3res) {
+	r.last = "NFSPROC3_READLINK"
+	return
+}
+func (r *c16Recorder) NFSPROC3_READ(a nfstypes.READ3args) (x nfstypes.READ3res) {
+	r.last = "NFSPROC3_READ"
+	return
+}
+func (r *c16Recorder) NFSPROC3_WRITE(a nfstypes.WRITE3args) (x nfstypes.WRITE3res) {
+	r.last = "NFSPROC3_WRITE"
+	return
+}
+func (r *c16Recorder) NFSPROC3_CREATE(a nfstypes.CREATE3args) (x nfstypes.CREATE3res) {
+	r.last = "NFSPROC3_CREATE"
+	return
+}
+func (r *c16Recorder) NFSPROC3_MKDIR(a nfstypes.MKDIR3args) (x nfstypes.MKDIR3res) {
+	r.last = "NFSPROC3_MKDIR"
+	return
+}
+func (r *c16Recorder) NFSPROC3_SYMLINK(a nfstypes.SYMLINK3args) (x nfstypes.SYMLINK3res) {
+	r.last = "NFSPROC3_SYMLINK"
+	return
+}
+func (r *c16Recorder) NFSPROC3_MKNOD(a nfstypes.MKNOD3args) (x nfstypes.MKNOD3res) {
+	r.last = "NFSPROC3_MKNOD"
+	return
+}
+func (r *c16Recorder) NFSPROC3_REMOVE(a nfstypes.REMOVE3args) (x nfstypes.REMOVE3res) {
+	r.last = "NFSPROC3_REMOVE"
+	return
+}
+func (r *c16Recorder) NFSPROC3_RMDIR(a nfstypes.RMDIR3args) (x nfstypes.RMDIR3res) {
+	r.last = "NFSPROC3_RMDIR"
+	return
+}
+func (r *c16Recorder) NFSPROC3_RENAME(a nfstypes.RENAME3args) (x nfstypes.RENAME3res) {
+	r.last = "NFSPROC3_RENAME"
+	return
+}
+func (r *c16Recorder) NFSPROC3_LINK(a nfstypes.LINK3args) (x nfstypes.LINK3res) {
+	r.last = "NFSPROC3_LINK"
+	return
+}
+func (r *c16Recorder) NFSPROC3_READDIR(a nfstypes.READDIR3args) (x nfstypes.READDIR3res) {
+	r.last = "NFSPROC3_READDIR"
+	return
+}
+func (r *c16Recorder) NFSPROC3_READDIRPLUS(a nfstypes.READDIRPLUS3args) (x nfstypes.READDIRPLUS3res) {
+	r.last = "NFSPROC3_READDIRPLUS"
+	return
+}
+func (r *c16Recorder) NFSPROC3_FSSTAT(a nfstypes.FSSTAT3args) (x nfstypes.FSSTAT3res) {
+	r.last = "NFSPROC3_FSSTAT"
+	return
+}
+func (r *c16Recorder) NFSPROC3_FSINFO(a nfstypes.FSINFO3args) (x nfstypes.FSINFO3res) {
+	r.last = "NFSPROC3_FSINFO"
+	return
+}
+func (r *c16Recorder) NFSPROC3_PATHCONF(a nfstypes.PATHCONF3args) (x nfstypes.PATHCONF3res) {
+	r.last = "NFSPROC3_PATHCONF"
+	return
+}
+func (r *c16Recorder) NFSPROC3_COMMIT(a nfstypes.COMMIT3args) (x nfstypes.COMMIT3res) {
+	r.last = "NFSPROC3_COMMIT"
+	return
+}
 func (r *c16Recorder) MOUNTPROC3_NULL() { r.last = "MOUNTPROC3_NULL" }
-func (r *c16Recorder) MOUNTPROC3_MNT(a nfstypes.Dirpath3) (x nfstypes.Mountres3) { r.last = "MOUNTPROC3_MNT"; return }
+func (r *c16Recorder) MOUNTPROC3_MNT(a nfstypes.Dirpath3) (x nfstypes.Mountres3) {
+	r.last = "MOUNTPROC3_MNT"
+	return
+}
 func (r *c16Recorder) MOUNTPROC3_DUMP() (x nfstypes.Mountopt3) { r.last = "MOUNTPROC3_DUMP"; return }
-func (r *c16Recorder) MOUNTPROC3_UMNT(a nfstypes.Dirpath3) { r.last = "MOUNTPROC3_UMNT" }
-func (r *c16Recorder) MOUNTPROC3_UMNTALL() { r.last = "MOUNTPROC3_UMNTALL" }
-func (r *c16Recorder) MOUNTPROC3_EXPORT() (x nfstypes.Exportsopt3) { r.last = "MOUNTPROC3_EXPORT"; return }
+func (r *c16Recorder) MOUNTPROC3_UMNT(a nfstypes.Dirpath3)     { r.last = "MOUNTPROC3_UMNT" }
+func (r *c16Recorder) MOUNTPROC3_UMNTALL()                     { r.last = "MOUNTPROC3_UMNTALL" }
+func (r *c16Recorder) MOUNTPROC3_EXPORT() (x nfstypes.Exportsopt3) {
+	r.last = "MOUNTPROC3_EXPORT"
+	return
+}
